@@ -299,6 +299,8 @@ func (e *Engine) cmdCheck(prop, tier, evid, known, replayDir string, replay bool
 		all = append(all, e.layoutObligations([]string{"pack"})...)
 	case "C08":
 		all = append(all, e.structuralObligations("len")...)
+		// Len and Pack agree field by field only if pack follows the same schema (which names take the compress flag)
+		all = append(all, e.layoutObligations([]string{"pack"})...)
 	case "C16":
 		all = append(all, e.structuralObligations("copy")...)
 	case "C20":
